@@ -98,6 +98,7 @@ PROPS["C10"] = {
                      "real file-system behaviour under concurrent processes is only sampled (stress run)"],
     "assumptions": COMMON_ASSUME + ["updaters do not crash inside the locked region (a SoftFileLock marker left by a crash is outside the property)"],
     "partial": "OS file semantics",
+    "props_files": ["C10", "C10Live"],
 }
 
 PROPS["C01"] = {
@@ -214,7 +215,7 @@ LEVEL_TEXT = {
         "technique": "Lean 4 proof (inductive invariants over all interleavings, progress measure) + trace refinement checked by execution",
     },
     "C10": {
-        "text": "The shape of update_image (lock wraps read → yield → write and nothing else; lock path from the default-format tile path; one format for read and write) is re-extracted each run. A transition system with one transition per lock/read/write step is proved, for any number of updaters and every interleaving, to keep an 8-clause invariant; corollaries: when all updaters are done the tile is stable and holds every contribution exactly once in lock-acquisition order (serialisability), no read ever observes a partially written tile, at most one updater is inside the region. The real update_image runs under a deterministic scheduler (random and bounded-exhaustive schedules, 2-4 updaters) with traced reads/writes; traces are replayed through the Lean model and the final tile content is checked; a real-process stress run.",
+        "text": "The shape of update_image (lock wraps read → yield → write and nothing else; lock path from the default-format tile path; one format for read and write) is re-extracted each run. A transition system with one transition per lock/read/write step is proved, for any number of updaters and every interleaving, to keep an 8-clause invariant; corollaries: when all updaters are done the tile is stable and holds every contribution exactly once in lock-acquisition order (serialisability), no read ever observes a partially written tile, at most one updater is inside the region; and (Props/C10Live, updates_can_finish) from every reachable state some continuation lets every updater finish — the locked region never deadlocks. The real update_image runs under a deterministic scheduler (random and bounded-exhaustive schedules, 2-4 updaters) with traced reads/writes; traces are replayed through the Lean model and the final tile content is checked; a real-process stress run.",
         "note": "trusted: Lean kernel; the lock/file semantics of DESIGN.md §3; simmp; fact extraction.",
         "technique": "Lean 4 proof (inductive invariant over all interleavings) + trace refinement checked by execution",
     },
